@@ -322,25 +322,47 @@ Proof.
   rewrite E in D1. rewrite D1 in D2. now injection D2.
 Qed.
 
-(* UnmarshalBinary never reports an error, whatever the input *)
-Theorem message_unmarshal_never_errors m0 bs : snd (message_unmarshal m0 bs) = false.
-Proof. unfold message_unmarshal. destruct (message_decode m0 bs); reflexivity. Qed.
-
-(* ... and when decoding fails the receiver is silently left as it was (empty, for a fresh Message) *)
-Theorem message_unmarshal_silent m0 bs :
-  message_decode m0 bs = None -> message_unmarshal m0 bs = (m0, false).
+(* since fix 3cad471: a decoding failure is reported, and the receiver is left as it was *)
+Theorem message_unmarshal_reports_errors m0 bs :
+  message_decode m0 bs = None -> message_unmarshal m0 bs = (m0, true).
 Proof. unfold message_unmarshal. now intros ->. Qed.
 
-(* the statement the property needs -- "a decode failure is reported" -- is false for the code as written *)
-Theorem message_unmarshal_reports_errors_refuted :
+(* no error <-> the bytes decode, and then the receiver is exactly the decoded message *)
+Theorem message_unmarshal_ok_iff m0 bs m :
+  message_unmarshal m0 bs = (m, false) <-> message_decode m0 bs = Some m.
+Proof.
+  unfold message_unmarshal. destruct (message_decode m0 bs) as [m'|]; split; intro H.
+  - now injection H as ->.
+  - now injection H as ->.
+  - discriminate.
+  - discriminate.
+Qed.
+
+(* a Message whose sender id is not valid UTF-8 is still marshalled without complaint and cannot be restored;
+   since the fix the failure is at least reported *)
+Theorem message_invalid_utf8_not_restorable :
+  exists m, message_decode empty_message (message_encode m) = None /\
+            message_unmarshal empty_message (message_encode m) = (empty_message, true).
+Proof.
+  exists (mkMessage None [97; 255] [] [112] 1 None false None). split; vm_compute; reflexivity.
+Qed.
+
+(* ---- the code before the fix (regression examples) ---- *)
+Theorem message_unmarshal_v0_never_errors m0 bs : snd (message_unmarshal_v0 m0 bs) = false.
+Proof. unfold message_unmarshal_v0. destruct (message_decode m0 bs); reflexivity. Qed.
+
+Theorem message_unmarshal_v0_silent m0 bs :
+  message_decode m0 bs = None -> message_unmarshal_v0 m0 bs = (m0, false).
+Proof. unfold message_unmarshal_v0. now intros ->. Qed.
+
+Theorem message_unmarshal_v0_reports_errors_refuted :
   exists bs, message_decode empty_message bs = None /\
-             message_unmarshal empty_message bs = (empty_message, false).
+             message_unmarshal_v0 empty_message bs = (empty_message, false).
 Proof. exists [1; 2; 3]. split; reflexivity. Qed.
 
-(* a Message whose sender id is not valid UTF-8 is marshalled without complaint and cannot be restored *)
-Theorem message_invalid_utf8_refuted :
+Theorem message_invalid_utf8_v0_refuted :
   exists m, message_decode empty_message (message_encode m) = None /\
-            message_unmarshal empty_message (message_encode m) = (empty_message, false).
+            message_unmarshal_v0 empty_message (message_encode m) = (empty_message, false).
 Proof.
   exists (mkMessage None [97; 255] [] [112] 1 None false None). split; vm_compute; reflexivity.
 Qed.
@@ -434,10 +456,10 @@ Proof.
 Qed.
 
 (* whatever decodes is a finite point of the curve; in particular the identity is never produced *)
-Theorem point_decode_valid b P :
-  point_decode b = Some P -> length b = 33%nat /\ valid_point P.
+Theorem point_decode_v0_valid b P :
+  point_decode_v0 b = Some P -> length b = 33%nat /\ valid_point P.
 Proof.
-  destruct b as [|pre xb]; cbn [point_decode]; [discriminate|].
+  destruct b as [|pre xb]; cbn [point_decode_v0]; [discriminate|].
   destruct (Nat.eqb_spec (length xb) 32) as [L|L]; cbn [negb]; [|discriminate].
   destruct (lift_x (Z_of_bytes xb)) as [[[x y]|]|] eqn:Hl; try discriminate.
   intro H. injection H as <-.
@@ -450,6 +472,28 @@ Proof.
   rewrite Hb. cbn [andb]. now rewrite fneg_sq.
 Qed.
 
+(* the repaired decoder is the old one restricted to the prefixes 02 and 03 *)
+Lemma point_decode_restricts b P : point_decode b = Some P -> point_decode_v0 b = Some P.
+Proof.
+  destruct b as [|pre xb]; cbn [point_decode point_decode_v0]; [discriminate|].
+  destruct (Nat.eqb (length xb) 32); cbn [negb]; [|discriminate].
+  destruct ((pre =? 2)%N || (pre =? 3)%N); cbn [negb]; [auto | discriminate].
+Qed.
+
+Lemma point_decode_prefix b P :
+  point_decode b = Some P -> exists xb, b = 2%N :: xb \/ b = 3%N :: xb.
+Proof.
+  destruct b as [|pre xb]; cbn [point_decode]; [discriminate|].
+  destruct (Nat.eqb (length xb) 32); cbn [negb]; [|discriminate].
+  destruct (N.eqb_spec pre 2) as [->|E2]; [intros _; exists xb; now left|].
+  destruct (N.eqb_spec pre 3) as [->|E3]; [intros _; exists xb; now right|].
+  discriminate.
+Qed.
+
+Theorem point_decode_valid b P :
+  point_decode b = Some P -> length b = 33%nat /\ valid_point P.
+Proof. intro H. apply point_decode_v0_valid. now apply point_decode_restricts. Qed.
+
 Theorem point_decode_never_identity b : point_decode b <> Some None.
 Proof. intro H. apply point_decode_valid in H as [_ [H _]]. now apply H. Qed.
 
@@ -457,23 +501,67 @@ Proof. intro H. apply point_decode_valid in H as [_ [H _]]. now apply H. Qed.
 Theorem point_identity_not_restorable : point_decode (point_encode None) = None.
 Proof. vm_compute. reflexivity. Qed.
 
-(* the first byte only selects the parity: anything but 03 means "even" *)
-Theorem point_decode_prefix_unchecked pre xb :
-  pre <> 3%N -> point_decode (pre :: xb) = point_decode (2%N :: xb).
+Lemma bytes32_of_bytes xb :
+  length xb = 32%nat -> wf_bytes xb = true -> bytes32_of_Z (Z_of_bytes xb) = xb.
 Proof.
-  intro H. cbn [point_decode]. apply N.eqb_neq in H. rewrite H. reflexivity.
+  intros L W. unfold bytes32_of_Z, Z_of_bytes. rewrite N2Z.id, <- L. now apply be_bytes_be_val.
 Qed.
 
-(* hence decoding is not injective / the accepted encoding is not canonical *)
-Theorem point_decode_canonical_refuted :
-  exists b P, point_decode b = Some P /\ point_encode P <> b.
+(* since fix 96ab1f0 the accepted encoding is canonical: what decodes re-encodes to the same bytes.
+   (y <> 0 holds for every point of secp256k1 -- there is no point of order two -- but that is a fact about the
+   curve which is not proved here, so it is a hypothesis) *)
+Theorem point_decode_canonical b x y :
+  wf_bytes b = true -> point_decode b = Some (Some (x, y)) -> y <> 0 -> point_encode (Some (x, y)) = b.
+Proof.
+  destruct b as [|pre xb]; cbn [point_decode]; [discriminate|]. intros W.
+  cbn [wf_bytes forallb] in W. apply andb_true_iff in W as [_ W].
+  destruct (Nat.eqb_spec (length xb) 32) as [L|L]; cbn [negb]; [|discriminate].
+  destruct ((pre =? 2)%N || (pre =? 3)%N) eqn:Epre; cbn [negb]; [|discriminate].
+  destruct (lift_x (Z_of_bytes xb)) as [[[x' y']|]|] eqn:Hl; try discriminate.
+  intros H Hy0. injection H as <- <-.
+  apply lift_x_on_curve in Hl as (Hoc & y'' & Hy & Hev). injection Hy as -> ->.
+  cbn [on_curve] in Hoc. apply andb_true_iff in Hoc as [Hoc _]. apply andb_true_iff in Hoc as [_ Hyr].
+  apply in_field_bound in Hyr.
+  cbn [point_encode]. rewrite bytes32_of_bytes by assumption. f_equal.
+  destruct (N.eqb_spec pre 3) as [->|E3].
+  - cbn [N.eqb Pos.eqb] in *.
+    assert (Hne : y'' <> 0).
+    { intros ->. apply Hy0. unfold fneg. cbn [Z.opp]. apply Z.mod_0_l. exact secp_p_ne_0. }
+    assert (Hn : fneg y'' = secp_p - y'').
+    { unfold fneg. replace (- y'') with ((secp_p - y'') + (-1) * secp_p) by ring.
+      rewrite Z.mod_add by exact secp_p_ne_0. apply Z.mod_small. lia. }
+    rewrite Hn. rewrite Z.even_sub, secp_p_odd, Hev. reflexivity.
+  - rewrite Hev. rewrite orb_false_r in Epre. apply N.eqb_eq in Epre. now subst.
+Qed.
+
+Theorem point_decode_inj b1 b2 x y :
+  wf_bytes b1 = true -> wf_bytes b2 = true -> y <> 0 ->
+  point_decode b1 = Some (Some (x, y)) -> point_decode b2 = Some (Some (x, y)) -> b1 = b2.
+Proof.
+  intros W1 W2 Hy H1 H2.
+  rewrite <- (point_decode_canonical b1 x y W1 H1 Hy). now apply point_decode_canonical.
+Qed.
+
+(* ---- before the fix: the first byte only selected the parity ---- *)
+Theorem point_decode_v0_prefix_unchecked pre xb :
+  pre <> 3%N -> point_decode_v0 (pre :: xb) = point_decode_v0 (2%N :: xb).
+Proof.
+  intro H. cbn [point_decode_v0]. apply N.eqb_neq in H. rewrite H. reflexivity.
+Qed.
+
+Theorem point_decode_v0_canonical_refuted :
+  exists b P, point_decode_v0 b = Some P /\ point_encode P <> b.
 Proof.
   exists (0%N :: bytes32_of_Z secp_Gx), secp_G. split.
   - vm_compute. reflexivity.
   - vm_compute. discriminate.
 Qed.
 
-(* the strict SEC1 decoder of the reference model is a restriction of the decoder as written *)
+(* the non-canonical witness of the old decoder is refused now *)
+Theorem point_decode_refuses_v0_witness : point_decode (0%N :: bytes32_of_Z secp_Gx) = None.
+Proof. reflexivity. Qed.
+
+(* the strict SEC1 decoder of the reference model is a restriction of the library's decoder *)
 Theorem point_decode_extends_strict b P : decompress b = Some P -> point_decode b = Some P.
 Proof.
   destruct b as [|pre xb]; cbn [decompress point_decode]; [discriminate|].
@@ -510,7 +598,7 @@ Section PointRoundTrip.
     destruct (lift_x_complete p_prime x y Hoc) as (y' & Hl & Hev & Hc).
     cbn [point_encode point_decode]. unfold bytes32_of_Z at 1. rewrite be_bytes_length. cbn [Nat.eqb negb].
     fold (bytes32_of_Z x). rewrite bytes32_roundtrip by assumption. rewrite Hl.
-    destruct (Z.even y) eqn:Ey; cbn [N.eqb Pos.eqb].
+    destruct (Z.even y) eqn:Ey; cbn [N.eqb Pos.eqb orb negb].
     - destruct Hc as [->| ->]; [reflexivity|].
       rewrite Z.even_sub, secp_p_odd, Ey in Hev. discriminate.
     - destruct Hc as [->| ->]; [congruence|].
